@@ -53,7 +53,7 @@ IsEndName(n) == n \in {"request_body_end", "response_body_end"}
 CbEv(p, n, i, res) ==
   [e |-> "Cb", n |-> EvName(n), tx |-> i - 1, rp |-> p.txs[i].rp, sp |-> p.txs[i].sp, len |-> IF IsEndName(n) THEN 0 ELSE 1,
    nul |-> IsEndName(n), ret |-> res, act |-> "none", c100 |-> p.txs[i].c100,
-   mn |-> IF p.txs[i].m = "CONNECT" THEN 4 ELSE 2, st |-> 0, m |-> TRUE,
+   mn |-> IF p.txs[i].m = "CONNECT" THEN 6 ELSE 2, st |-> 0, m |-> TRUE,
    el |-> 0, ml |-> 0, dl |-> -1, tc |-> 0, ce |-> 0, wl |-> -1, xl |-> -1]
 TpEv(id, i) == [e |-> "TP", id |-> id, tx |-> i - 1]
 CallEv(d, k, n) == [e |-> "Call", d |-> d, k |-> k, len |-> n, off |-> 0]
@@ -510,7 +510,7 @@ Report == PrintT(<<"MAXL", TLCGet(1), Len(TraceLog)>>) /\ PrintT(<<"VIOL", TLCGe
 \* History-only observer fields (event positions, counters, the completion order) are hidden from TLC's fingerprint:
 \* they never influence a clause that is model-checked, and they would make every path a distinct state.
 ObsView(o) == [txs |-> [k \in 1..Len(o.txs) |-> [o.txs[k] EXCEPT !.qstartpos = 0, !.sstartpos = 0]],
-               viol |-> o.viol, gsites |-> o.gsites, call |-> o.call, lastrc |-> o.lastrc, tunnel |-> o.tunnel,
+               viol |-> o.viol, gsites |-> o.gsites, call |-> o.call, lastrc |-> o.lastrc, tunnel |-> o.tunnel, bothtunnel |-> o.bothtunnel,
                zero |-> o.zero, waitconnect |-> o.waitconnect, waitarmed |-> o.waitarmed, closed |-> o.closed, ntx |-> o.ntx]
 View == <<P, prog, cur, avail, calls, ObsView(obs)>>
 
